@@ -242,19 +242,30 @@ def complex_int_pow(a, b, n):
         n //= 2
     return wre, wim
 
+def _pow_guard_bits(z, exponent_mag):
+    """Extra bits needed in log(z) so that exp(w*log(z)) is accurate:
+    the error of log(z) is amplified by |w*log(z)|."""
+    a, b = z
+    logmag = bitcount(abs(a[2]+a[3]) + abs(b[2]+b[3]) + 3)
+    return max(0, exponent_mag) + logmag
+
 def mpc_pow(z, w, prec, rnd=round_fast):
     if w[1] == fzero:
         return mpc_pow_mpf(z, w[0], prec, rnd)
-    return mpc_exp(mpc_mul(mpc_log(z, prec+10), w, prec+10), prec, rnd)
+    wmag = max(w[0][2]+w[0][3], w[1][2]+w[1][3])
+    wp = prec + 10 + _pow_guard_bits(z, wmag)
+    return mpc_exp(mpc_mul(mpc_log(z, wp), w, wp), prec, rnd)
 
 def mpc_pow_mpf(z, p, prec, rnd=round_fast):
     psign, pman, pexp, pbc = p
     if pexp >= 0:
         return mpc_pow_int(z, (-1)**psign * (pman<<pexp), prec, rnd)
     if pexp == -1:
-        sqrtz = mpc_sqrt(z, prec+10)
+        # the error of the square root is amplified by the exponent
+        sqrtz = mpc_sqrt(z, prec+10+pbc)
         return mpc_pow_int(sqrtz, (-1)**psign * pman, prec, rnd)
-    return mpc_exp(mpc_mul_mpf(mpc_log(z, prec+10), p, prec+10), prec, rnd)
+    wp = prec + 10 + _pow_guard_bits(z, pexp+pbc)
+    return mpc_exp(mpc_mul_mpf(mpc_log(z, wp), p, wp), prec, rnd)
 
 def mpc_pow_int(z, n, prec, rnd=round_fast):
     a, b = z
